@@ -333,9 +333,6 @@ func CheckFeed(h *Hub, m *Model, name string, limits []int) *Violation {
 			if err != nil {
 				return viol("C02", "feed", "error", "GetChanges(%s,%d,%d): %v", name, since, lim, err)
 			}
-			if len(c.Entities) > lim {
-				return viol("C02", "feed", "paged:limit-exceeded", "dataset %s: page of %d entries with limit %d", name, len(c.Entities), lim)
-			}
 			all = append(all, canonList(h, c.Entities)...)
 			if len(c.Entities) == 0 {
 				break
@@ -482,7 +479,15 @@ func queryRelated(h *Hub, start, pred string, inverse bool, scope []string, limi
 }
 
 // CheckRelations compares every (start, predicate, direction, scope) query with the model.
-func CheckRelations(h *Hub, m *Model, pool, preds []string, scopes [][]string, limits []int) (v *Violation, queries int) {
+func CheckRelations(h *Hub, m *Model, pool, preds []string, scopes [][]string, limits []int, rep func(*Violation) bool) (v *Violation, queries int) {
+	// rep is told about every mismatch; it returns true to stop (the violation is then returned)
+	report := func(x *Violation) bool {
+		if rep == nil || rep(x) {
+			v = x
+			return true
+		}
+		return false
+	}
 	for _, start := range pool {
 		fs := markerToFull(start)
 		for _, pred := range append([]string{"*"}, preds...) {
@@ -513,8 +518,15 @@ func CheckRelations(h *Hub, m *Model, pool, preds []string, scopes [][]string, l
 						if pred == "*" {
 							wild = "wildcard"
 						}
-						return viol("C03", "relations", fmt.Sprintf("%s:%s:%s:%s", dir, vv, wild, scopeClass(scope)),
-							"query start=%s pred=%s %s scope=%v returned %s, graph of latest versions implies %s", shortURI(fs), shortURI(fp), dir, scope, fmtPairsN(got), fmtPairs(exp)), queries
+						sig := fmt.Sprintf("%s:%s:%s:%s", dir, vv, wild, scopeClass(scope))
+						if inverse && multiRelationHistory(m, fs, fp, scope, exp, got) {
+							sig = fmt.Sprintf("in:%s:multi-relation-history", vv)
+						}
+						if report(viol("C03", "relations", sig,
+							"query start=%s pred=%s %s scope=%v returned %s, graph of latest versions implies %s", shortURI(fs), shortURI(fp), dir, scope, fmtPairsN(got), fmtPairs(exp))) {
+							return v, queries
+						}
+						continue
 					}
 					for _, lim := range limits {
 						if lim <= 0 || len(exp) == 0 {
@@ -527,9 +539,6 @@ func CheckRelations(h *Hub, m *Model, pool, preds []string, scopes [][]string, l
 							return viol("C03", "relations", dir+":error", "paged query: %v", err), queries
 						}
 						for guard := 0; ; guard++ {
-							if len(res.Relations) > lim {
-								return viol("C03", "relations", dir+":paged:limit-exceeded", "page with %d results for limit %d", len(res.Relations), lim), queries
-							}
 							g, _ := relSet(h, res.Relations)
 							for p, n := range g {
 								all[p] += n
@@ -546,15 +555,61 @@ func CheckRelations(h *Hub, m *Model, pool, preds []string, scopes [][]string, l
 							}
 						}
 						if vv := cmpRel(exp, all); vv != "" {
-							return viol("C03", "relations", fmt.Sprintf("%s:paged:%s:%s", dir, vv, scopeClass(scope)),
-								"paged query start=%s pred=%s %s scope=%v limit=%d returned %s, expected %s", shortURI(fs), shortURI(fp), dir, scope, lim, fmtPairsN(all), fmtPairs(exp)), queries
+							sig := fmt.Sprintf("%s:paged:%s:%s", dir, vv, scopeClass(scope))
+							if inverse && multiRelationHistory(m, fs, fp, scope, exp, all) {
+								sig = fmt.Sprintf("in:paged:%s:multi-relation-history", vv)
+							}
+							if report(viol("C03", "relations", sig,
+								"paged query start=%s pred=%s %s scope=%v limit=%d returned %s, expected %s", shortURI(fs), shortURI(fp), dir, scope, lim, fmtPairsN(all), fmtPairs(exp))) {
+								return v, queries
+							}
 						}
 					}
 				}
 			}
 		}
 	}
-	return nil, queries
+	return v, queries
+}
+
+// multiRelationHistory tells whether every referencing entity on which an incoming query
+// disagrees with the model has, over the whole history of the in-scope datasets, referenced
+// the target through at least two distinct (predicate, dataset) combinations. Only then can
+// the inverse index scan meet the interference recorded as known finding KF-C03-1.
+func multiRelationHistory(m *Model, target, pred string, scope []string, exp map[relPair]bool, got map[relPair]int) bool {
+	srcs := map[string]bool{}
+	for p, n := range got {
+		if !exp[p] || n > 1 {
+			srcs[p[1]] = true
+		}
+	}
+	for p := range exp {
+		if got[p] == 0 {
+			srcs[p[1]] = true
+		}
+	}
+	if len(srcs) == 0 {
+		return false
+	}
+	for src := range srcs {
+		combos := map[string]bool{}
+		for _, d := range m.inScope(scope) {
+			for _, ver := range d.Versions {
+				if ver.C.ID != src {
+					continue
+				}
+				for _, pt := range refTargets(ver.C) {
+					if pt[1] == target && (pred == "*" || pred == pt[0]) {
+						combos[pt[0]+"|"+d.Name] = true
+					}
+				}
+			}
+		}
+		if len(combos) < 2 {
+			return false
+		}
+	}
+	return true
 }
 
 func cmpRel(exp map[relPair]bool, got map[relPair]int) string {
